@@ -8,6 +8,7 @@ import FxpVerif.Model.Bits
 import FxpVerif.Model.Infer
 import FxpVerif.Model.Scale
 import FxpVerif.Model.Reduce
+import FxpVerif.Model.Status
 /-! Line-protocol helpers for the correspondence driver (core Lean only). -/
 namespace Fxp.Proto
 
